@@ -94,7 +94,12 @@ def correspond(ctx):
                 allb.setdefault(b, []).append((key, k))
                 nbuilds += 1
         c.count('extra:' + name, sum(len(v) for v in allb.values()))
-        if len(allb) != 1 or next(iter(allb)).startswith(('FAIL', 'ERR')):
+        only = next(iter(allb))
+        if len(allb) == 1 and only.startswith('FAIL:') and not only.startswith('FAIL:SilentDrop'):
+            c.count('extra-raises-consistently:' + name)      # a build that raises the same error in every history is an outcome
+            c.notes.append('Python-level definition %r raises in every history: %s' % (name, only[:120]))
+            continue
+        if len(allb) != 1 or only.startswith(('FAIL', 'ERR')):
             kinds = {b[:60]: v[:3] for b, v in allb.items()}
             c.failures.append(Failure('correspondence',
                                       'the Python-level definition %r (harness/impl/c20_extras.py) built to different results or failed: %s'
